@@ -197,7 +197,7 @@ func (g *tgen) node(depth int, root bool) *tnode {
 		case k < 2:
 			n.parts = append(n.parts, tpart{kind: kHole, size: 1 + rng.Intn(20)})
 			g.shapes["hole"] = true
-		case k < 6 || depth <= 1:
+		case k < 5 || depth <= 1:
 			b := g.pickBlob()
 			if len(b.data) >= 3 && rng.Intn(4) == 0 {
 				// the same blob cut into two adjacent parts, with or without a gap
@@ -246,6 +246,16 @@ func witnessTree() (*tnode, []*dblob) {
 	n := &tnode{typ: "bytes", parts: []tpart{{kind: kBlob, b: b, off: 0, size: 10}, {kind: kBlob, b: b, off: 15, size: 5}}}
 	n.finish(false)
 	return n, []*dblob{b}
+}
+
+// witnessTreeEOF: one part that ends before its blob does; a read that starts inside
+// the part and asks for more than the file has must stop at the end of the file.
+func witnessTreeEOF() *tnode {
+	data := []byte("0123456789")
+	b := &dblob{data: data, ref: sto.RefOf("sha224", data)}
+	n := &tnode{typ: "file", parts: []tpart{{kind: kBlob, b: b, off: 0, size: 5}}}
+	n.finish(false)
+	return n
 }
 
 // ---------------------------------------------------------------- structure queries
@@ -366,7 +376,7 @@ type treeCase struct {
 }
 
 func treeJobs(r *ev.Run) []job {
-	n := r.Pick(400, 6000)
+	n := r.Pick(5000, 100000)
 	var jobs []job
 	for i := 0; i <= n; i++ {
 		id := fmt.Sprintf("t%d;", i)
@@ -398,9 +408,13 @@ func runTree(r *ev.Run, id string, idx int) {
 		shapes["same-blob-adjacent"] = true
 		shapes["blob-short"] = true
 		shapes["blob-offset"] = true
+	} else if idx == 1 {
+		root = witnessTreeEOF()
+		shapes["known-witness"] = true
+		shapes["blob-short"] = true
 	} else {
 		g := &tgen{rng: rng, shapes: shapes, big: idx%7 == 0}
-		root = g.node(1+rng.Intn(3), true)
+		root = g.node([]int{1, 1, 2, 2, 2, 3, 3, 3, 3}[rng.Intn(9)], true)
 	}
 	schemaBlobs := map[string]*tnode{}
 	dataBlobs := map[string]*dblob{}
@@ -485,13 +499,21 @@ func runTree(r *ev.Run, id string, idx int) {
 	if len(root.parts) >= 2 || root.depth > 1 || (len(root.parts) == 1 && root.parts[0].off > 0) {
 		r.Distinct("tree/" + root.ref.String())
 	}
-	if idx <= 1 {
+	if idx == 0 || idx == 2 {
 		r.Sample(map[string]any{"kind": "tree", "case": tc, "denotes": show(want)})
 	}
 
-	nviol := 0
+	nviol := 0   // reports not attributed to the short-part defect
+	nhazard := 0 // reports attributed to it (capped per tree, checking continues)
 	viol := func(sig, op, format string, a ...any) {
-		nviol++
+		if strings.HasPrefix(sig, "readat/part-shorter-than-") {
+			nhazard++
+			if nhazard > 2 {
+				return
+			}
+		} else {
+			nviol++
+		}
 		c := tc
 		c.Op = op
 		r.Violation(sig, fmt.Sprintf("tree %s (%d bytes, depth %d): %s: ", root.ref, size, root.depth, op)+fmt.Sprintf(format, a...), c)
@@ -707,7 +729,7 @@ func runTree(r *ev.Run, id string, idx int) {
 
 	// ---- sequential reads with fixed buffer sizes, from a fresh reader each
 	for _, bs := range []int{1, 3, 7, 64, size + 1} {
-		if nviol >= 4 || size == 0 {
+		if nviol >= 4 || size == 0 || (bs == 1 && size > 4096) {
 			break
 		}
 		fr3, err := schema.NewFileReader(ctx, st, root.ref)
